@@ -818,7 +818,7 @@ def explore(ctx, factor, bs):
             preloop_case(ctx, case)
             ctx.record(case, True)
     # ---- A: catalogue
-    n_forms = ctx.pick(14, 110) * factor
+    n_forms = ctx.pick(14, 85) * factor
     site_cap = ctx.pick(40, 120)
     applicable = {m[0]: 0 for m in c17_mut.CATALOGUE}
     done = 0
@@ -852,7 +852,7 @@ def explore(ctx, factor, bs):
     ctx.notes["catalogue_applications"] = applicable
     ctx.notes["catalogue_base_forms"] = done
     # ---- B: vocabulary fuzz
-    n_fuzz = ctx.pick(7000, 120000) * factor
+    n_fuzz = ctx.pick(7000, 100000) * factor
     for i in range(n_fuzz):
         k = i % 10
         if k < 5:
